@@ -18,6 +18,8 @@ import (
 //	K = "int"  : I (int64 in span data; Go int in a condition value)
 //	    "i64"  : I (int64 in a condition value)
 //	    "f"    : F (float64, finite, not -0)
+//	    "u"    : I >= 0 as uint64, "f32" : F as float32   (span data only: what a msgpack decoder yields;
+//	             Payload.Get hands them to the samplers as int64 / float64)
 //	    "s"    : S
 //	    "b"    : B
 //	    "nil"
@@ -40,6 +42,10 @@ func (v rvVal) goSpan() any {
 		return v.I
 	case "f":
 		return v.F
+	case "u": // an integer that arrived in an unsigned msgpack encoding
+		return uint64(v.I)
+	case "f32": // a float that arrived in 32 bits
+		return float32(v.F)
 	case "s":
 		return v.S
 	case "b":
@@ -113,6 +119,8 @@ func (o *oracleTabs) note(v rvVal) {
 	switch v.K {
 	case "f":
 		o.floats[v.F] = true
+	case "f32":
+		o.floats[float64(float32(v.F))] = true
 	case "s":
 		o.strings[v.S] = true
 	case "arr":
@@ -167,6 +175,10 @@ func cqSval(x any) string {
 		return cq.App("SInt", cq.Z(int64(t)))
 	case float64:
 		return cq.App("SF64", cqDy(t))
+	case uint64: // Payload.Get normalises (values above MaxInt64 are not generated here)
+		return cq.App("SInt", cq.Z(int64(t)))
+	case float32:
+		return cq.App("SF64", cqDy(float64(t)))
 	case string:
 		return cq.App("SStr", cq.Str(t))
 	case bool:
